@@ -113,6 +113,10 @@ def check(repo: Repo, run: Run) -> None:
         "F5: ValueError/TypeError raised by a host function are converted (effect engine, host-function model). "
         "Not decided: 'once per call site' and the argument values."
     )
+    # F6: a supplied function is bound "for this program only": nothing on the path that resolves or names a function
+    # may be a process-wide table filled by an earlier program (instances shared with C05's storage-channel inventory;
+    # the whole inventory is imported because any shared cell written while building a program can carry a function)
+    run.borrow(repo, "C05", "C14.F6", lambda o: o["rule"] in ("C05.H0", "C05.H1", "C05.H2"), 2)
     ev = repo.mod("evaluation")
     E = class_methods(ev.cls("Evaluator"))
     fe, me = E.get("function_eval"), E.get("method_eval")
@@ -204,7 +208,32 @@ def check(repo: Repo, run: Run) -> None:
                        + ": the supplied function replaces the built-in for every program of the process, not for this program only", ev.loc(n))
     init = ev.func("Activation.__init__")
     s = ast.unparse(init)
-    run.shape("C14.F2", "Activation.__init__|list form", "f.__name__: f for f in functions" in s, "a list of callables is keyed by each callable's __name__", ev.loc(init))
+    # a list of callables is registered under the name a CEL call site can spell: the callable's __name__
+    # (__qualname__ of a nested def / method is `outer.<locals>.f`; repr/str never is an identifier)
+    fparam = "functions"
+    keyed = []  # (key expression, loop variable, node)
+    for n in ast.walk(init):
+        if isinstance(n, ast.DictComp) and len(n.generators) == 1 and fparam in {x.id for x in ast.walk(n.generators[0].iter) if isinstance(x, ast.Name)} \
+                and isinstance(n.generators[0].target, ast.Name) and isinstance(n.value, ast.Name) and n.value.id == n.generators[0].target.id:
+            keyed.append((n.key, n.generators[0].target.id, n))
+        if isinstance(n, ast.For) and isinstance(n.target, ast.Name) and fparam in {x.id for x in ast.walk(n.iter) if isinstance(x, ast.Name)}:
+            for st in ast.walk(n):
+                if isinstance(st, ast.Assign) and len(st.targets) == 1 and isinstance(st.targets[0], ast.Subscript) and isinstance(st.value, ast.Name) and st.value.id == n.target.id:
+                    keyed.append((st.targets[0].slice, n.target.id, st))
+    if not keyed:
+        run.shape("C14.F2", "Activation.__init__|list form", "f.__name__: f for f in functions" in s, "a list of callables is keyed by each callable's __name__", ev.loc(init))
+    for key, var, node in keyed:
+        k = strip_cast(key)
+        if isinstance(k, ast.Attribute) and isinstance(k.value, ast.Name) and k.value.id == var:
+            ok = k.attr == "__name__"
+            run.ob("C14.F2", "Activation.__init__|list form", ok,
+                   "a list of callables is keyed by each callable's __name__" if ok else
+                   f"a list of callables is keyed by `{ast.unparse(k)}`: for a nested def, closure or method that is not the name a CEL call site spells, so f(x) / x.f() report an undeclared function and a supplied override of a built-in never takes effect",
+                   ev.loc(node))
+        elif isinstance(k, ast.Call) and dotted(k.func) in ("repr", "str", "id", "hash") and k.args and isinstance(k.args[0], ast.Name) and k.args[0].id == var:
+            run.ob("C14.F2", "Activation.__init__|list form", False, f"a list of callables is keyed by `{ast.unparse(k)}`, which no CEL call site can spell", ev.loc(node))
+        else:
+            run.inconclusive("C14.F2", "Activation.__init__|list form", f"the key `{ast.unparse(k)[:50]}` under which a listed callable is registered was not recognised")
     # base_functions never written
     writes = []
     for m in ("evaluation", "celpy", "c7nlib", "main"):
